@@ -549,3 +549,23 @@ define i32 @f(i32 %n) {
   %v = load i32, i32 addrspace(5)* %a
   ret i32 %v
 }
+;;; ATOM term/repeated-targets
+define i32 @f(i8* %p, i32 %x, i1 %c) {
+entry:
+  br i1 %c, label %a, label %a
+a:
+  switch i32 %x, label %b [
+    i32 1, label %b
+    i32 2, label %c1
+    i32 3, label %b
+    i32 4, label %c1
+  ]
+b:
+  indirectbr i8* %p, [label %c1, label %d, label %c1, label %d, label %c1]
+c1:
+  callbr void asm sideeffect "", "X,X"(i8* blockaddress(@f, %d), i8* blockaddress(@f, %e)) to label %a [label %d, label %e]
+d:
+  ret i32 0
+e:
+  ret i32 1
+}
